@@ -161,25 +161,37 @@ check("C11",
       "Coq proof of buffer bounds for a generic tokenizer + per-chunk correspondence + high-water oracle on real constraints", "DESIGN.md 5/C11")
 
 check("C14",
-      "Theorems (Coq, 12): for every finite schedule of lookups / dials / block deliveries / cuts / per-end close notifications / restarts / "
-      "time-outs / instant retries from errbacks of a two-Tub model, at quiescence M's current connection is c iff S's is c (full statement, inductive per-connection invariant); the "
-      "current connection is the unique live Broker end; decision lemmas on the TRANSLATED compareOfferAndExisting (older seqnum / 'none' from the "
-      "same incarnation rejected, different incarnation accepted, equal accepted, greater rejected, pre-0.2.0 by handle-old age); waiters are "
-      "answered when the connector finishes or times out, and a lookup issued synchronously from inside such an errback again waits on a live "
-      "connector (uses the order of effects TRANSLATED from Tub.connectionFailed); issued = fired + waiting; the non-master records the decision "
-      "it accepts whoever dialled (one step, guard TRANSLATED from acceptDecisionVersion1; the all-schedules form is not proved). 'A redundant attempt never displaces' is refuted for offers that "
-      "remember the master's past life (known finding, replayed on real Tubs). Tie: fail-closed AST translation of compareOfferAndExisting / "
-      "handle_old, of the connectionFailed effect order and the slave_table guard, and about 60 shape facts of negotiate / connection / pb / broker; "
-      "1512 decision cases, 18 scripted and 150 seeded schedules of two real Tubs on the in-memory network compared with the model after every step (brokers, master/slave tables, connectors, waiters, link states). Direct "
-      "oracle (a fixed battery independent of the seed + seeded runs + corpus witnesses per seeded-change family): cross-connects with 1-3 hints, "
-      "cuts, restarts, black holes, one-sided cuts after connections dialled in either direction with redial by the side that noticed (several "
-      "rounds), raced cross-connect then cut then new lookups, lookups issued re-entrantly from every callback / errback, byte- and block-granular "
-      "delivery, virtual time: agreement at quiescence, no displacement by a redundant attempt, restart and knowing redial displace the stale "
-      "connection, every getReference (re-entrant ones included) fires exactly once within its own CONNECTION_TIMEOUT.",
-      "Modelled, not verified: Twisted Deferreds/reactor, TLS (no-op), whole-block delivery in the model (byte interleavings by the oracle only), "
-      "incarnations as integers, version/vocab negotiation assumed to succeed (C13), two Tubs only; per-Deferred exactly-once and the 120 s bound "
-      "are checked by the oracle.",
-      "Coq inductive invariant over all schedules + translated decision function + trace validation of real Tubs", "DESIGN.md 5/C14")
+      "Theorems (Coq, 20), for every finite schedule of a two-Tub model with VIRTUAL TIME and IDENTIFIED lookups (ops: lookups, dialled hints, block "
+      "deliveries, cuts, per-end close notifications, restarts, forced time-outs, Advance dt = time passes up to the next armed timer and the due "
+      "TubConnector timers / listening-end negotiation timers fire, instant retries from errbacks, handle-old setting): at quiescence M's current "
+      "connection is c iff S's is c (full statement, inductive per-connection invariant); the current connection is the unique live Broker end; "
+      "decision lemmas on the TRANSLATED compareOfferAndExisting (older seqnum / 'none' from the same incarnation rejected, different incarnation "
+      "accepted, equal accepted, greater rejected, pre-0.2.0 by handle-old age) AND their composition with the master's step: a redundant offer of "
+      "the connected incarnation leaves the master's Tub and every other connection untouched and is hung up, an offer of another incarnation "
+      "becomes the current connection with the next seqnum; every lookup number handed out is either answered at a time within "
+      "CONNECTION_TIMEOUT (translated constant) of the lookup or still waiting with its deadline strictly ahead and at most CONNECTION_TIMEOUT "
+      "after the lookup; answered + waiting numbers are exactly 0..issued-1, each once (never lost, never answered twice); the clock is never "
+      "blocked (Advance dt>0 moves it); nobody waits without a live connector or while connected; the forced time-out errbacks exactly the waiters "
+      "(uses the order of effects TRANSLATED from Tub.connectionFailed, so a retry from inside an errback gets a connector and a time-out of its "
+      "own); for every schedule, whenever both Tubs hold the same current connection the non-master's slave_table record is exactly the master's "
+      "(incarnation, seqnum) of it, whoever dialled (guard TRANSLATED from acceptDecisionVersion1; invariant: every decision in flight on the "
+      "master's current connection names its current incarnation and seqnum). 'A redundant attempt never displaces' is refuted for offers that remember the master's past life (known "
+      "finding, replayed on real Tubs). Tie: fail-closed AST translation of compareOfferAndExisting / handle_old, of the connectionFailed effect "
+      "order, the slave_table guard, CONNECTION_TIMEOUT, SERVER_TIMEOUT, and about 70 shape facts of negotiate / connection / pb / broker (incl. "
+      "who arms / stops which timer); 1512 decision cases, 24 scripted and 150 seeded schedules of two real Tubs on the in-memory network compared "
+      "with the model after every step (clock, brokers, master/slave tables, connector AND its deadline, Broker creation time, WHICH Deferreds wait "
+      "-- by identity -- and which lookups were answered when and how, link states and queues). Direct oracle (a fixed battery independent of the "
+      "seed + seeded runs + corpus witnesses per seeded-change family): cross-connects with 1-3 hints, cuts, restarts, black holes, one-sided cuts "
+      "after connections dialled in either direction with redial by the side that noticed (several rounds, also with a concurrent outbound "
+      "negotiation to a third Tub around the redial), raced cross-connect then cut then new lookups, lookups issued re-entrantly from every "
+      "callback / errback, lookups queued before startService, byte- and block-granular delivery, virtual time with reactor-like handling of "
+      "exceptions in timer callbacks: agreement at quiescence, no displacement by a redundant attempt, restart and knowing redial displace the "
+      "stale connection, every getReference (re-entrant and queued ones included) fires exactly once within its own CONNECTION_TIMEOUT.",
+      "Modelled, not verified: Twisted Deferreds/reactor, TLS (no-op), whole-block delivery and TCP connect + GET/101 folded into the dial step in "
+      "the model (byte interleavings by the oracle only), incarnations as integers, integer-second virtual time with timers firing at their "
+      "deadline, version/vocab negotiation assumed to succeed (C13), two Tubs in the model (a third Tub and lookups queued before startService "
+      "only in the oracle runs); handle-old is an input of the model step but its branch is unreachable between two modern Tubs (not proved).",
+      "Coq inductive invariants over all schedules incl. virtual time + translated decision function + trace validation of real Tubs", "DESIGN.md 5/C14")
 
 check("C15",
       "Theorems (Coq, 12, over all event histories Rx/Tick/Close on a model built from the translated timer callbacks; time exact in integer ms): "
@@ -221,7 +233,24 @@ check("C09",
       "Coq invariant proof over an executable model + translated counting functions + trace validation (vm_compute) on real Brokers", "DESIGN.md 5/C09")
 
 check("C10",
-      "[Round 4: fields fit whichever travel as VOCAB tokens (taster read from source); failing a request fires once under every logging option (fallback names read from source); Tub logging options and the negotiated vocabulary as batch dimensions.] [Round 3: wrapping is unconditional in the failure's class (foolscap's own exception classes, 3-party relay); every inbound delivery is handled whatever the readiness of earlier ones (refused / unresolvable gifts: C10_deliveries_all_handled); fixed corpus witness per seed family.] Theorems (Coq, 15; receiver-side rejections stay inside their top-level object (reportViolation shape fact); f.type rebuilt from the "
+      "[Round 5: 27 theorems. NEW: ancestry (length/order kept, every ancestor whose name fits is found by check()/trap(), nothing invented, "
+      "prefix-closed entry by entry), type name and message exact when they fit, uniform wrapping stated on what the caller can observe "
+      "(delivered_check / delivered_type equal for EVERY transmitted failure incl. Violation and RemoteException; RemoteException's ancestry read "
+      "from tokens.py), the second sentence end to end by composition (C10_report_end_to_end); the sender of lib/Send.v composed with the C07 "
+      "transcription of Banana.handleData (lib/BananaRecv.v) for every wire form of the primitive tokens and every receiving policy: nesting = "
+      "sender's stack depth, objectCounter advance = openCount advance, back at top level whenever the sender is back at its RootSlicer, a sibling "
+      "after any history meets a receiver at top level (two _partial theorems: hypothesis 'the receiving Banana did not drop the connection'). "
+      "NEW correspondences (vm_compute): the counting receiver (cstep) against the real Banana.handleData + PB unslicers token by token in both "
+      "directions of every batch (~980 traces / 124 k tokens quick; `viol` = real handleViolation calls), drain against the instrumented "
+      "Broker.scheduleCall/_doCall/callFailed of every batch, deliver / delivered_check / delivered_type against ErrorUnslicer.receiveClose + "
+      "wrap_remote_failure + Failure.check, fail_request against PendingRequest.fail, requal against CopiedFailure.setCopyableState. Catalogue: "
+      "8 shapes of legal dicts whose keys cannot be ordered (argument and echoed result, depth 0-2), 5 kinds of exceptions that cannot be rendered. "
+      "RELAY path (CopiedFailureSlicer.getStateToCopy, which does not truncate): relay_state model, C10_relay_end_to_end (a relayed failure of a "
+      "class with a qualified name fits A's FailureConstraint and keeps type / message / ancestry), C10_relay_dotless_refuted (a dotless 200-byte "
+      "name gains a byte: unreachable from reflect.qual), compared with the real CopiedFailureSlicer; relays at the byte limits in the catalogue. "
+      "props/C10.v labels every theorem [T]/[C]/[S]; the theorems that restate one shape fact (faithful_delivery, deliveries_all_handled, "
+      "fail_fires_once, connection_stays_up, receiver_rejections_contained) say so and name the correspondence that carries the content.] "
+      "[Round 4: fields fit whichever travel as VOCAB tokens (taster read from source); failing a request fires once under every logging option (fallback names read from source); Tub logging options and the negotiated vocabulary as batch dimensions.] [Round 3: wrapping is unconditional in the failure's class (foolscap's own exception classes, 3-party relay); every inbound delivery is handled whatever the readiness of earlier ones (refused / unresolvable gifts: C10_deliveries_all_handled); fixed corpus witness per seed family.] Theorems (Coq; receiver-side rejections stay inside their top-level object (reportViolation shape fact); f.type rebuilt from the "
       "transmitted name alone; multi-fault calls and homonymous exception classes in the catalogue). No hypothesis on the exception: FailureSlicer.getStateToCopy is total and every field it sends fits the byte limits "
       "FailureConstraint enforces (type 200, value 1000, traceback 2000, each parent 200) for any class name, any message incl. text UTF-8 cannot "
       "encode, a raising __str__, any traceback, both unsafeTracebacks settings; each field is the escaped text or a whole-character prefix + '..' "
@@ -231,15 +260,18 @@ check("C10",
       "histories only shift OPEN numbers; every OPEN gets the sender's number at a receiver that counts discarded OPENs too (handleData shape fact); "
       "a non-Violation exception drops the connection (the one known finding). Tie: truncate, both sides' "
       "limits, the error handler, safe_str, elision constants and the doPop/sendAbort flags and statement orders of produce / handleSendViolation / "
-      "popSlicer / pushSlicer / childAborted are read from the AST on every run; 216 batches (wire skeleton of the caller's bytes) and 137 Failure "
+      "popSlicer / pushSlicer / childAborted are read from the AST on every run; ~600 batches (wire skeleton of the caller's bytes) and ~150 Failure "
       "states (byte for byte) compared by vm_compute. Direct oracle on real Broker pairs: batches of 3-6 concurrent calls with the faulty call at "
-      "every position, 13 fault kinds, 7 exception classes x 21 message shapes, all 4 option settings, shared-container follow-up calls after every "
+      "every position, 15 fault kinds, 12 exception classes x 27 message shapes, all 4 option settings, shared-container follow-up calls after every "
       "fault: sibling results exact, connection up, "
       "callee ran exactly the expected methods, delivered failure identifies type/parents and carries a maximal message prefix, wrapped iff types "
       "are hidden, never a local Violation for a remote exception.",
-      "Modelled, not verified: token values abstracted to one data token on the send side; the framing-checker receiver of Send.v is stricter than "
-      "Banana.handleData (real receiver: oracle + C07); the callee's execution path (oracle only); Twisted Deferred/Failure.",
-      "Coq proof over executable models + AST translation (truncate, limits, shape facts) + vm_compute correspondence + fault-injection oracle", "DESIGN.md 5/C10")
+      "Modelled, not verified: token values abstracted to one data token on the send side (the BananaRecv composition quantifies over all wire "
+      "forms instead); the two BananaRecv theorems assume the receiving Banana did not drop the connection (no lost sync is proved for the "
+      "number-checking receiver and compared token by token with the real one); that each rejected / failing call is answered by exactly one "
+      "`error` (callee's callFailed / _callFinished path) is oracle only; Twisted Deferred/Failure.",
+      "Coq proof over executable models + AST translation (truncate, limits, shape facts) + vm_compute correspondence (wire skeleton, Failure "
+      "fields, receiver bookkeeping per token, delivery queue, delivery/wrapping/check) + fault-injection oracle", "DESIGN.md 5/C10")
 
 check("C17",
       "Theorems (Coq, 14, over all programs): eventually() never runs the callable synchronously; run order = submission order incl. re-entrant "
